@@ -263,7 +263,7 @@ def rule_spline(prog, rep, R="C07.spline"):
     rep.rule(R, "RationalQuadraticSpline: in-bounds branch equals eq. 4 (transform), eq. 5 (derivative), "
                            "eq. 6-8 (inverse) of Durkan et al. on the bin located in the right knot table; the "
                            "out-of-bounds branch is the identity (derivative 1); the result is selected by the same "
-                           "interval mask that restricts the input", minimum=9)
+                           "interval mask that restricts the input", minimum=12)
     c = prog.cls(SPLINE)
     for name, (table_name, src) in SPLINE_REFS.items():
         t = spline_method_term(prog, name)
@@ -277,6 +277,15 @@ def rule_spline(prog, rep, R="C07.spline"):
             rep.undecided(R, site, k + ":where", f"result is not where(mask, formula, tail): {show(t, 160)}")
             continue
         mask, inb, outb = wp
+        from .spline import mask_info as _mi
+        _fake = ("call", ("ext", "jax.numpy.where"), (), (("condition", mask), ("x", X), ("y", C(0))))
+        _m = _mi(_fake)
+        rep.check(_m is not None and _m[4] == ("sub", ("attr", SELF, "interval"), C(0))
+                  and _m[5] == ("sub", ("attr", SELF, "interval"), C(1)) and _m[2] and _m[3],
+                  R, site, k + ":mask==closed-interval",
+                  "selected by interval[0] <= x <= interval[1]",
+                  f"{name} selects its in-bounds branch with {show(mask, 160)}, not with the closed interval test "
+                  f"interval[0] <= x <= interval[1] used by the other methods: map and log-det disagree on a band of inputs")
         want_out = C(1.0) if name == "derivative" else X
         ok_tail = same(outb, want_out) or (name == "derivative" and outb in (C(1), C(1.0)))
         rep.check(ok_tail, R, site, k + ":tail",
